@@ -337,6 +337,20 @@ def run(ctx):
         if 'site' in res:
             lines, actual, names = res['site']
             site_lines_all.append((lines, actual, names, dict(base=kind, seed=seed, nops=nops)))
+    for i in range(ctx.n(100, 1500)):
+        bseed = ctx.rng.randrange(10 ** 6)
+        try:
+            res = bump_history(bseed)
+        except Exception as e:
+            res = 'skip'
+            ctx.count('bump-map:raised:' + type(e).__name__)
+        if res == 'skip':
+            continue
+        ctx.count('bump-map')
+        ctx.case(dict(kind='bump-map', seed=bseed))
+        if res and res[0] not in reported:
+            reported.add(res[0])
+            ctx.violation('c02:' + res[0], res[1], dict(kind='bump-map', seed=bseed))
     for i in range(ctx.n(40, 800)):
         vseed = ctx.rng.randrange(10 ** 6)
         try:
@@ -389,6 +403,54 @@ def run(ctx):
         ctx.violation('corr:kernel', 'collada.util._syncChildren and Pyc.Sync.syncChildren disagree on %r: model %r, implementation %r' % bad_kernel,
                       dict(kind='kernel', line=bad_kernel[0], model=bad_kernel[1], impl=bad_kernel[2]), found_input=False)
     ctx.assumptions.append('edit histories keep the model self-consistent (vlib/editgen.py); numeric comparison modulo the seven digits written')
+
+
+def bump_history(seed):
+    """effects whose bump map is already written into the document (after a save, or loaded): the bump map is replaced by another Map object,
+    edited in place, taken away or given for the first time; save, reload, compare.  Returns None, 'skip' or (sig, what)"""
+    import collada
+    from collada import material
+    r = random.Random('c02bump/%s' % seed)
+    for attempt in range(8):       # a document that has an effect with a sampler
+        doc = modelgen.build(seed + 1000003 * attempt, dict(effects=3))
+        if any(isinstance(q, material.Sampler2D) for e in doc.effects for q in e.params):
+            break
+    else:
+        return 'skip'
+    if seed % 2:
+        b = io.BytesIO()
+        doc.write(b)
+        doc = collada.Collada(io.BytesIO(b.getvalue()))
+    else:
+        doc.save()
+    hist = []
+    for e in doc.effects:
+        samplers = [q for q in e.params if isinstance(q, material.Sampler2D)]
+        if not samplers:
+            continue
+        k = r.choice(['replace', 'replace', 'inplace', 'remove', 'add'])
+        if k == 'replace' and e.bumpmap is not None:
+            e.bumpmap = material.Map(r.choice(samplers), r.choice(['BUMPUV2', 'TEX7']))
+        elif k == 'inplace' and e.bumpmap is not None:
+            e.bumpmap.texcoord = 'CHANNEL9'
+            e.bumpmap.sampler = r.choice(samplers)
+        elif k == 'remove' and e.bumpmap is not None:
+            e.bumpmap = None
+        elif k == 'add' and e.bumpmap is None:
+            e.bumpmap = material.Map(r.choice(samplers), 'BUMPNEW')
+        else:
+            continue
+        hist.append('%s:%s' % (e.id, k))
+    if not hist:
+        return 'skip'
+    want = snap.snapshot(doc)['effects']
+    b = io.BytesIO()
+    doc.write(b)
+    got = snap.snapshot(collada.Collada(io.BytesIO(b.getvalue())))['effects']
+    df = snap.diff(want, got)
+    if df:
+        return ('bump-map', 'after %s the reloaded effects differ from the edited model: %s' % (hist, '; '.join(df[:3])))
+    return None
 
 
 def vertex_inputs_history(seed):
@@ -478,6 +540,11 @@ def replay(ctx, rep):
         c = rep['line']
         print('  kernel divergence recorded for %r' % c)
         return False
+    if rep.get('kind') == 'bump-map':
+        res = bump_history(rep['seed'])
+        if res and res != 'skip':
+            print('  ' + res[1])
+        return bool(res) and res != 'skip'
     if rep.get('kind') == 'vertex-inputs':
         res = vertex_inputs_history(rep['seed'])
         if res and res != 'skip':
